@@ -159,6 +159,9 @@ class ConnDriver:
 
     def do_Close(self):
         self.reason = fakes.conn_lost()
+        if getattr(self, 'conn', None) is not None and (len(self.fired) + len(self.cbs) + sum(self.ran.values())) % 2 == 0:
+            # it is the application that ends the connection: disconnect(), and the transport reports the loss afterwards
+            self.conn.disconnect()
         self.proto.connectionLost(self.reason)
         self._after_close = True
         self.closed = True
@@ -215,7 +218,12 @@ class ConnDriver:
         self.calld[k] = d
         out = fakes.parse_all(self.t.take())
         self.serial = getattr(self, 'serial', {})
-        self.serial[k] = out[0].serial
+        if out:
+            self.serial[k] = out[0].serial
+        else:
+            # nothing goes out on a transport that was already asked to close (the call is outstanding all the same)
+            assert self.t.disconnecting, 'a call wrote nothing to an open transport'
+            self.serial[k] = max(self.conn._pendingCalls) if self.conn._pendingCalls else 0
 
     def _callres(self, k, what):
         if self.closed_done():
